@@ -139,6 +139,7 @@ type Engine struct {
 	quantVars map[types.Object]bool
 	strLens map[string]int64
 	frame *frame
+	mapV0 T
 	alloc0 T
 	permDecl int
 	visStack []T
@@ -197,6 +198,17 @@ func sanitize(s string) string {
 // name introduces a definition for t unless it is already atomic.
 func (e *Engine) name(prefix string, t T) T {
 	if len(t.s) < 24 || !strings.ContainsAny(t.s, "( ") {
+		return t
+	}
+	e.nsym++
+	name := fmt.Sprintf("%s!%d", sanitize(prefix), e.nsym)
+	e.defs = append(e.defs, Def{name: name, sort: t.sort, body: t.s})
+	return T{name, t.sort}
+}
+
+// nameAlways introduces a definition even for small terms (needed when the symbol itself is tracked).
+func (e *Engine) nameAlways(prefix string, t T) T {
+	if !strings.ContainsAny(t.s, "( ") {
 		return t
 	}
 	e.nsym++
@@ -556,6 +568,27 @@ func (e *Engine) mapTyped(st *State, ref T, t types.Type) {
 		e.typeIDs["map:"+types.TypeString(under(t), nil)] = id
 	}
 	e.assume(st, Implies(Ne(ref, I(0)), Eq(app(SInt, "maptype", ref), I(int64(id)))), "typed memory: map reference has its static map type")
+	// well-formed entry heap: references stored in a pre-existing map point to pre-existing objects
+	if mt, ok := under(t).(*types.Map); ok && e.mapV0.s != "" && e.alloc0.s != "" {
+		sz := 0
+		switch el := under(mt.Elem()).(type) {
+		case *types.Pointer:
+			sz = e.cells(el.Elem())
+		case *types.Map, *types.Chan, *types.Signature:
+			sz = 1
+		case *types.Basic:
+		default:
+			sz = e.cells(mt.Elem()) // boxed aggregates
+		}
+		if sz > 0 {
+			e.nsym++
+			v := fmt.Sprintf("mk!%d", e.nsym)
+			k := T{v, SInt}
+			c := Sel(Sel(e.mapV0, ref), k)
+			e.assume(st, Implies(And(Ne(ref, I(0)), Lt(ref, e.alloc0)), Forall([]string{v}, And(Le(I(0), c), Le(Add(c, I(int64(sz))), e.alloc0)))),
+				"typed memory: references stored in a pre-existing map point to pre-existing objects")
+		}
+	}
 }
 
 // bytesAreBytes: every cell of a block viewed as []byte / [n]byte holds a byte (typed memory).
